@@ -49,7 +49,7 @@ CLAIMS = {
        "missed list / error; TLC validates each record against the spec and the monitor evaluates the formulas on the recorded layout alone. Found and fixed: listed "
        "file under a directory without tar entry was 'not found' (6d65344).",
   design_ref="DESIGN.md 3 (C14), 2.4, 2.5",
-  note="Not covered: symlinks/devices/xattrs/PAX long names, hard-link cycles (C04), directories nested deeper than one level, the GOMAXPROCS default worker count; "
+  note="Covered since the second round: input landmarks in ./x, /x and plain spellings, hard links two directory levels deep sharing an ancestor with their target. Not covered: symlinks/devices/xattrs/PAX long names, hard-link cycles (C04), the GOMAXPROCS default worker count; "
        "compressed sizes are not modelled (min-chunk decisions bound from the observation); quick draws one option set per case by seed. Trusted: TLC, the independent layout reader.",
   technique="TLA+ transcription + TLC exhaustive enumeration with negative controls; every case replayed through the real builder; TLC trace validation + formula-only monitor on the recorded layout"),
  "C03": dict(
@@ -60,7 +60,7 @@ CLAIMS = {
        "external TOC x min-chunk sizes are built by the real code; an independent reader (footer -> TOC; one gzip member / zstd frame at a time; archive/tar) records the observed "
        "layout with SHA-256 content ids; TLC validates it as a behaviour of Writer.tla (compressed sizes bound from the observation) and the monitor evaluates the formulas on the record alone.",
   design_ref="DESIGN.md 3 (C03), 2.4, 2.5",
-  note="Quick replays a seeded sample (about 1100 of 32648 combinations); RFC validity of members = the standard decoders accept them; not covered: repeated AppendTar calls on one "
+  note="Quick replays ~1000 fixed combinations (all special families: repeated names with different metadata, nested files named like the reserved TOC/landmark entries) plus a seeded sample of the rest; RFC validity of members = the standard decoders accept them; not covered: repeated AppendTar calls on one "
        "writer, already-eStargz or zstd-compressed input, xattrs/symlinks/devices; the offset of EMPTY files is not constrained by any C03 formula (a mutant there is spec drift, exit 2).",
   technique="TLA+ transcription + TLC; builder outputs parsed by an independent reader; TLC trace validation + formula-only monitor on the recorded layout"),
  "C18": dict(
@@ -85,7 +85,7 @@ CLAIMS = {
        "descriptors, run through the real handlers, labels.Validate and readers; TLC validates each recorded result against the spec and the monitor evaluates the formulas on the "
        "recorded values alone. Found and fixed: urls.<i> indexed by child position instead of layer position (0e33758).",
   design_ref="DESIGN.md 3 (C20), 2.4, 2.5",
-  note="Strings abstracted to (length, token ids); no ',' in URLs/refs; on the pinned code manifests whose layer descriptors pre-set remote/urls* or prefetch make RoundTrip / PrefetchSizeRoundTrips false for the extra (CRI-labels) flavour (known finding :fl=extra:preset; the exhaustive runs check the repaired design, the pinned design is a negative control); an absent URL list read back as [\"\"] is treated as "
+  note="Strings abstracted to (length, token ids) except six concrete reference shapes that round-trip byte for byte and seven malformed spellings; URL lists landing exactly on the 4094..4097-byte boundary and descriptors with pre-set remote/* annotations are in the edge family; every single removal/emptying of urls / urls.<i> (i<=3) is generated (UrlsOwnOrNone); no ',' in URLs/refs; on the pinned code manifests whose layer descriptors pre-set remote/urls* or prefetch make RoundTrip / PrefetchSizeRoundTrips false for the extra (CRI-labels) flavour (known finding :fl=extra:preset; the exhaustive runs check the repaired design, the pinned design is a negative control); an absent URL list read back as [\"\"] is treated as "
        "no URL (only ipfs:// prefixes are consumed downstream); fs.Mount observed at the GetSources boundary. Trusted: TLC, the driver's materialisation.",
   technique="TLA+ transcription + TLC exhaustive enumeration with negative controls; every case replayed through the real handlers/readers; TLC conformance + formula-only monitor"),
  "C17": dict(
@@ -96,7 +96,7 @@ CLAIMS = {
        "Server RPC methods with a real bolt store file; recording filesystems are injected through a verifhook seam after service.NewFileSystem; every recorded history is validated by TLC "
        "against the spec and the C17 formulas are evaluated on the recorded states. Found and fixed: Mount after a failed first Init dereferenced a nil filesystem (291c12c).",
   design_ref="DESIGN.md 3 (C17), 2.4, 2.5, 7 item 10",
-  note="Histories only (no concurrent RPCs); bolt commits assumed atomic; no foreign kernel mounts; no requests after Close; gRPC transport and client.go not exercised; "
+  note="Histories only (no concurrent RPCs); recorded labels are compared with the labels served (RecordedLabelsServed: live mount's or last acknowledged request's); bolt commits assumed atomic; no foreign kernel mounts; no requests after Close; gRPC transport and client.go not exercised; "
        "'restoration failed' is read as recorded-but-unserved when the last Init reported an error. Trusted: TLC, the projection in harness/fusemanager.",
   technique="TLA+ spec + TLC exhaustive check with negative controls; edge-cover replay of the TLC state graphs into Go; TLC trace validation + property monitor of the recorded histories"),
  "C16": dict(
@@ -108,7 +108,7 @@ CLAIMS = {
        "rootnode/refnode/layernode handlers; racing lookups on one image run under -race; every recorded call/result/projection (the three maps read under r.mu, Done counts) is "
        "validated by TLC against the spec and the formulas are evaluated by the monitor. Found and fixed: release deleting from the wrong map (c08d15a); data race on layer.r (6ec7362).",
   design_ref="DESIGN.md 3 (C16), 2.4, 2.5, 7 item 3",
-  note="Calls are atomic in the spec (interleavings inside calls only in the racing-lookup runs, decided by outcome/quiescent-state checks); loadRef/network, TTLs and time-outs "
+  note="Calls are atomic in the spec (interleavings inside calls only in the racing-lookup runs, decided by outcome/quiescent-state checks); a lookup whose caller cancels while resolution is pending is modelled (negative control ResolveDetached); loadRef/network, TTLs and time-outs "
        "not modelled; remembered registry errors stay until the image's last release and never-used sibling layers stay cached after it (by design of the code; not claimed). "
        "Two images only in thorough and race runs. Trusted: TLC, the projection in harness/store.",
   technique="TLA+ spec + TLC exhaustive check with negative controls; edge-cover replay of the TLC state graphs into Go (manager and FUSE-handler level); TLC trace validation + property monitor; racing lookups under -race"),
@@ -121,7 +121,7 @@ CLAIMS = {
        "snapshot.NewSnapshotter with a recording backend that mounts a real tmpfs (EBUSY on deletion, kernel table checkable); every hook/backend event is recorded with the projected bolt "
        "metadata, snapshots/ directory, backend table and /proc/self/mountinfo; TLC validates the traces and the monitor evaluates the formulas on the recorded states.",
   design_ref="DESIGN.md 3 (C08), 2.4, 2.5, 2.8",
-  note="Bounded: <=2 keys, 2 committed names, 3 ids, 3-4 calls, all fault assignments; ONE caller (two-caller interleavings not modelled); key and target names disjoint; Update touches a user "
+  note="Bounded: <=2 keys, 2 committed names, 3 ids, 3-4 calls, all fault assignments; one caller in Snapshotter.tla; a focused TWO-caller stage (Snapshotter2.tla: createSnapshot vs Cleanup/Close with the bolt write lock, negative control CleanupScanExcludesWriters) is replayed with goroutines gated at the existing hooks; other caller pairs not modelled; key and target names disjoint; Update touches a user "
        "label only; backend is a tmpfs-mounting fake, not FUSE; -race off in the replay (single caller). Quick replays a ranked subset of walks of the larger graphs (thorough: every edge). "
        "Trusted: TLC, the projection in harness/snapshot.",
   technique="TLA+ spec + TLC exhaustive check with negative controls; edge-cover + simulation walks replayed into Go with fault injection; TLC trace validation + property monitor"),
@@ -134,7 +134,7 @@ CLAIMS = {
        "TLC trace validation + monitor decide. One known finding (Cleanup on a never-written metadata DB returns NotFound before scanning).",
   design_ref="DESIGN.md 3 (C09), 2.4, 2.5",
   note="bolt commit and rename(2) assumed atomic (no torn writes inside them); a crash during restore or Close only with a dying backend; Close followed by a no-restore start not modelled; "
-       "one caller. Trusted: TLC, the projection and crash-image copy in harness/snapshot.",
+       "one caller; every crash class (call, program counter, backend survives?) gets a deterministic crash->Restart->Cleanup walk in quick, on an empty root and on a root with a committed remote snapshot (call budget leaves some second-call crash points of the empty-root graphs uncovered). Trusted: TLC, the projection and crash-image copy in harness/snapshot.",
   technique="TLA+ spec with Crash/Restart actions + TLC exhaustive check; crash-point replay (root directory copied at the marker, restart on the copy); TLC trace validation + property monitor"),
  "C13": dict(
   text="TaskMgr.tla follows task.go step by step: the atomic counter of prioritized tasks, the notify channel replaced under notifyMu (epoch), the delayed-decrement goroutines that "
@@ -145,7 +145,7 @@ CLAIMS = {
        "reacting late to cancellation, ordered by hook calls; both validated by TLC against the spec and by the monitor. The pinned defect (cancelled body not awaited) was found by the "
        "check itself and fixed.",
   design_ref="DESIGN.md 3 (C13), 2.4, 2.5, 7 item 1",
-  note="the ctx timeout is modelled as an environment action (Timeout) with a negative control; caller discipline (Do/Done balance) is checked for fs.Check only; semaphore FIFO abstracted to any waiter; the wait loop's lock-free reads are not compared with the model; walks behind two-armed selects may be "
+  note="the ctx timeout is modelled as an environment action (Timeout) with a negative control; Acquire queuing and a timeout hitting a queued invocation are modelled (negative control AcquireIgnoresTimeout); caller discipline (Do/Done balance) is checked for fs.Check only; semaphore FIFO abstracted to any waiter; the wait loop's lock-free reads are not compared with the model; walks behind two-armed selects may be "
        "abandoned after 5 retries (exhaustive reported false); liveness on the implementation side is bounded-wait only (30 s return, 5 s cancel); callers in fs/layer, fs, store not exercised. "
        "Trusted: TLC, the gate scheduler and projection in harness/task.",
   technique="TLA+ spec + TLC exhaustive safety and fair liveness checks with negative controls; gated edge-cover replay into Go; TLC trace validation + property monitor of gated and free-running -race traces"),
@@ -159,7 +159,7 @@ CLAIMS = {
        "gzip members, bit flips, truncation, member swaps, re-serialised TOC with fresh footer); recorded outcomes, served values and cache probes are validated by TLC against the spec and "
        "the formulas evaluated by the monitor; a free-running -race mode and an alteration sweep are decided by the monitor. Found and fixed: layer.Verify no-op after SkipVerify/Verify.",
   design_ref="DESIGN.md 3 (C01), 2.4, 2.5, 7 item 5",
-  note="Bounded: 2 chunks of one file, <=2 workers, <=2 reads, <=2 alterations, <=3 Verify calls. The db store runs the one-worker gated graph, free runs and the sweep (the two-worker graph and layer histories stay on the memory store); external-TOC blobs only with payload alterations; a retried VerifyTOC after a failed one is generated (MaxVerify=2); Clone is covered by sweep histories (monitor only); the FUSE node path is not driven; tampering with uncompressed cache files at rest is out of scope (hits are unverified by design); concurrent Mounts racing on one layer object not modelled; "
+  note="Bounded: 2 chunks of one file, <=2 workers, <=2 reads, <=2 alterations, <=3 Verify calls. The db store runs the one-worker gated graph, free runs and the sweep (the two-worker graph and layer histories stay on the memory store); external-TOC blobs only with payload alterations; a retried VerifyTOC after a failed one is generated (MaxVerify=2); Clone is covered by sweep histories (monitor only); the Mount label decision of fs.go (TOC-digest label / skip label x allow_no_verification x disable_verification) is modelled (Mount action, negative control TocLabelFirst) and driven through a real NewFilesystem + FUSE mount; disable_verification mounts are not counted as pinned; tampering with uncompressed cache files at rest is out of scope (hits are unverified by design); concurrent Mounts racing on one layer object not modelled; "
        "'valid different payload' substitution only for stored gzip; a wrong-digest-field mutant fails closed and shows as exit 2. Trusted: TLC, the concretiser and projection in harness/fs/reader.",
   technique="TLA+ spec + TLC exhaustive check with negative controls; gated edge-cover replay of the TLC state graphs into Go over really altered blobs; TLC trace validation + property monitor; monitor-only free run and alteration sweep"),
  "C02": dict(
@@ -186,8 +186,8 @@ CLAIMS = {
        "by the monitor; the trees served for 96-480 model layers in all 3 modes on both stores are recorded and TLC merges stacks of them with OverlayMerge and compares with ApplyOCI. "
        "Found and fixed: three defects (e394a06, 7be4fbc, eeb783d).",
   design_ref="DESIGN.md 3 (C07), 2.4, 2.5, 7 item 4",
-  note="Bounded universes (7-8 names, reg/dir kinds, depth two, <=3 layers; sampled pairs/triples in the monitor). No kernel: overlayfs is the operator OverlayMerge and the go-fuse bridge "
-       "bookkeeping is emulated. Layers with the opaque marker on the layer root are outside the stack comparison. Not modelled: hard links, a real entry named .stargz-snapshotter, "
+  note="Bounded universes (10-14 names incl. hard links, real char devices 1:3 and 0:0, block device, fifo, symlink; depth two, <=3 layers; sampled pairs/triples in the monitor). No kernel: overlayfs is the operator OverlayMerge and the go-fuse bridge "
+       "bookkeeping is emulated. Layers with the opaque marker on the layer root are outside the stack comparison. Not modelled: a real entry named .stargz-snapshotter, a whiteout together with a real device of the same name, "
        "concurrent Readdir/Lookup, the choice of opaque mode in service.go. Trusted: TLC, the projection in harness/fs/layer/verif_node.go.",
   technique="TLA+ specs + TLC exhaustive check with negative controls; edge-cover and exhaustive short-sequence replay into Go on both metadata stores; TLC trace validation + property monitor; TLC evaluation of OverlayMerge on recorded served trees"),
  "C05": dict(
@@ -199,7 +199,7 @@ CLAIMS = {
        "store's record against the reference and TocMonitor evaluates StoresAgree (accept, digest, tree, attrs, links, chunks, bytes, offsets, clone) on the two records; layers opened "
        "concurrently in one bolt DB under -race are compared with their solo records. Ten genuine differences/defects were found and fixed; one is listed as known.",
   design_ref="DESIGN.md 3 (C05), 2.4, 2.5, 7 items 8-9",
-  note="Bounded: <=3 entries (4 thorough) over 6 paths; hand-made payload streams; builder-made blobs and the zstd / external-TOC formats are exercised by C02/C03, not here; "
+  note="Bounded: <=3 entries (4 thorough) over 6 paths, plus fixed families: files of 3-12 chunks with chunk offsets crossing the varint byte-order boundaries, names with inner and trailing dot elements; hand-made payload streams; builder-made blobs and the zstd / external-TOC formats are exercised by C02/C03, not here; "
        "GetAttr(root) before the db parser finishes is timing dependent and not recorded; the one-database stage is decided by the monitor only. Trusted: TLC, the blob concretiser and walk in harness/metadata.",
   technique="TLA+ reference semantics + TLC enumeration with negative controls; 3-way differential replay (reference / memory store / db store) on real blobs; TLC trace validation + StoresAgree monitor; concurrent one-DB runs under -race"),
  "C04": dict(
@@ -211,7 +211,7 @@ CLAIMS = {
        "Build, memory.NewReader and db.NewReader + full metadata.Reader walk, VerifiableReader.Cache and fs/reader ReadAt; the monitor formula NoCrashNoHang decides on the recorded outcomes "
        "(ok | error | panic | fatal | timeout). All crashes known from DESIGN 7 item 2 were re-found by the check; 15 defects fixed, two listed as known (whole-chunk buffers sized from the TOC).",
   design_ref="DESIGN.md 3 (C04), 2.5, 7 item 2",
-  note="Only the structured space within the stated bounds - not unstructured byte fuzzing; registry replies (Content-Range / multipart) and the FUSE node layer are not covered; in quick the db "
+  note="Only the structured space within the stated bounds (incl. zstd:chunked LENGTH extremes with offset+length overflow, every footer case opened through both stores with the zstd decompressor) - not unstructured byte fuzzing; registry replies (Content-Range / multipart) and the FUSE node layer are not covered; in quick the db "
        "store runs a seeded subset of the 3-entry structures; compressed-stream internals are the decoders' business. Trusted: TLC, the concretiser, the child-process runner.",
   technique="TLA+ structured input-space model + TLC enumeration; every case replayed through the real parsers/stores in crash-isolated child processes; TLC conformance to the allowed-outcome reference + NoCrashNoHang monitor"),
  "C12": dict(
@@ -223,7 +223,7 @@ CLAIMS = {
        "open files read from /proc/self/fd); TLC validates the recorded projections and the monitor evaluates the formulas; free-running goroutines (burst resolves, Done/Close/expiry/faults) "
        "run under -race and are decided by the monitor. Found and fixed: directoryCache.Close left its fd LRU open (2d84805).",
   design_ref="DESIGN.md 3 (C12), 2.4, 2.5",
-  note="Bounded models (1 name x 3 holders x 4 resolves x 2 faults; 2 names x 2 holders x 3 resolves); expiry is driven through TTLCache.Remove, not real timers (C10's subject); the Done/close cascade is "
+  note="Bounded models (1 name x 3 holders x 4 resolves x 2 faults; 2 names x 2 holders x 3 resolves); expiry is driven through TTLCache.Remove, not real timers (C10's subject); blob.Check's valid interval is modelled (Tick, fresh/bad bits, formula CheckNotFooled, negative control StampOnlyOnSuccess); the Done/close cascade is "
        "one atomic step in the model; two concurrent Resolve calls of one name without the lock are exercised only by the free-running burst phase; not covered: memory cache type, db metadata store, "
        "prefetch/background fetch (C15), passthrough, mkdir/Close errors. Trusted: TLC, the projection (reflection on cacheutil/remote/reader fields) in harness/fs/layer/verif_layerlife_test.go.",
   technique="TLA+ spec + TLC exhaustive check with negative controls; gated edge-cover replay of the TLC state graph into Go; TLC trace validation + property monitor (also on free-running -race executions)"),
@@ -236,7 +236,7 @@ CLAIMS = {
        "formulas use is recomputed independently from the bytes read back from the store (sha256, full decompression, estargz.Open + VerifyTOC + every chunk verifier, hand-parsed zstd:chunked footer); "
        "TLC trace validation + monitor decide. Found and fixed: five defects (three shared-slice/map races, a wrong media type, a nil-buffer panic).",
   design_ref="DESIGN.md 3 (C19), 2.4, 2.5, 7 item 7",
-  note="N=2 conversions over 4 sources in quick (N=3 thorough); tiny layers; per-layer-option APIs only in a few free runs; a deviating lossless writer exists only in the design model; interruption and "
+  note="N=2 conversions per gated walk (N=3 thorough) over a catalogue of 12 source layers (plain/gzip/zstd/already converted x OCI, OCI non-distributable, Docker, Docker foreign media types), every source converted in every mode in every run; tiny layers; per-layer-option APIs only in a few free runs; a deviating lossless writer exists only in the design model; interruption and "
        "stale ingests exercised but not studied separately; the packages' own tests need the network and are outside the baseline. Trusted: TLC, the independent recomputation in the driver.",
   technique="TLA+ spec + TLC exhaustive check with negative controls; gated edge-cover replay of schedules into real conversions; TLC trace validation + property monitor; parallel conversions under -race"),
  "C15": dict(
@@ -250,7 +250,7 @@ CLAIMS = {
        "by the monitor; free-running concurrent calls under -race are decided by the monitor. The db-store './' defect (prefetch never completing) was re-found by this check (fixed under C05).",
   design_ref="DESIGN.md 3 (C15), 2.4, 2.5, 7 item 8",
   note="Quick replays 16 walks per scenario (exhaustive false; thorough covers every edge); chunk cache = directory cache with SyncAdd (with asynchronous persistence a miss in the window is allowed by "
-       "C11); reads go through reader.Reader.OpenFile, not a kernel mount; files, not chunks, are the unit of caching in the spec; the task manager is abstract (C13); wait timing checked with 3 s slack; "
+       "C11); reads go through reader.Reader.OpenFile, not a kernel mount; files are the unit of caching in the spec, with partial reads (ReadPart) of multi-chunk files and a 2.7 MB layer because the readers peek up to 2 MiB; the async-threshold decision is tied to the effective range (WaitNilOnlyIfEndedOrAsync); the task manager is abstract (C13); wait timing checked with 3 s slack; "
        "cfg = 0 and a closed layer not exercised. Trusted: TLC, the recording registry and projection in harness/fs/layer/verif_prefetch.go.",
   technique="TLA+ spec + TLC exhaustive safety and fair liveness checks with negative controls; gated replay of TLC walks on real layers over both metadata stores; TLC trace validation + property monitor; free-running -race runs"),
 }
